@@ -235,6 +235,23 @@ pub fn source_for(case: &Case) -> (String, Vec<(String, u16)>) {
     (src, labels)
 }
 
+pub fn case_to_json(c: &Case) -> Value {
+    json!({"insn": insn_to_json(&c.insn), "regs": c.regs.to_json(),
+        "fix": [c.fix.off_class, c.fix.phys_class, c.fix.sp_class, c.fix.str_class],
+        "memval": c.memval, "choices": c.choices, "label_off": c.label_off})
+}
+pub fn case_from_json(v: &Value) -> Case {
+    let f: Vec<u8> = v["fix"].as_array().map(|a| a.iter().map(|x| x.as_u64().unwrap_or(0) as u8).collect()).unwrap_or(vec![0; 4]);
+    Case {
+        insn: insn_from_json(&v["insn"]),
+        regs: Regs::from_json(&v["regs"]),
+        fix: Fix { off_class: f[0], phys_class: f[1], sp_class: f[2], str_class: f[3] },
+        memval: v["memval"].as_u64().map(|x| x as u16),
+        choices: v["choices"].as_array().map(|a| a.iter().map(|x| x.as_u64().unwrap_or(0) as u8).collect()).unwrap_or_default(),
+        label_off: v["label_off"].as_u64().unwrap_or(0) as u16,
+    }
+}
+
 #[derive(Debug)]
 pub enum Verdict {
     Pass { nontrivial: bool, classes: Vec<String> },
@@ -432,7 +449,7 @@ pub fn run_case(wk: &mut Worker, case: &Case, openq: &Quirks, call_stack: &[usiz
     let obs_mem = diff_vs_template(&mut wk.vm);
     let obs_stack = asm.ictx.call_stack.clone();
     let replay = |accept: &Vec<Expect>| {
-        json!({"kind":"l1","source":src,"line":line,"insn":canonical(&case.insn),"pre_regs":regs.to_json(),
+        json!({"kind":"l1","case":case_to_json(case),"source":src,"line":line,"insn":canonical(&case.insn),"pre_regs":regs.to_json(),
             "pre_mem":pre.iter().map(|(a,v)| json!([a,v])).collect::<Vec<_>>(),
             "accept":accept.iter().map(expect_json).collect::<Vec<_>>(),"call_stack":call_stack})
     };
@@ -650,6 +667,18 @@ pub fn run_forms_n(ctx: &Ctx, set: FormSet, cases_total: u32, tag: &str) {
 
 /// replay a stored L1 case: re-run the implementation and compare with the stored accept set
 pub fn replay(v: &Value) -> Result<String, String> {
+    if v.get("case").is_some() {
+        let case = case_from_json(&v["case"]);
+        let cs: Vec<usize> = v.get("call_stack").and_then(|x| x.as_array()).map(|a| a.iter().map(|x| x.as_u64().unwrap_or(0) as usize).collect()).unwrap_or_default();
+        let mut wk = Worker::new();
+        let (src, _) = source_for(&case);
+        return match run_case(&mut wk, &case, &Quirks::none(), &cs) {
+            Verdict::Pass { .. } => Ok(format!("source {:?}: implementation agrees with the reference model", src)),
+            Verdict::Rejected(e) => Ok(format!("source {:?}: rejected by the assembler: {}", src, e)),
+            Verdict::Known(k) => Err(format!("source {:?}: known finding {}", src, k)),
+            Verdict::Fail { aspect, detail, .. } => Err(format!("{}: {}", aspect, detail)),
+        };
+    }
     let src = v.get("source").and_then(|x| x.as_str()).ok_or("no source")?;
     let regs = Regs::from_json(v.get("pre_regs").ok_or("no regs")?);
     let mut asm = assemble(src).map_err(|e| format!("assembler: {}", e))?;
